@@ -113,6 +113,10 @@ pub trait Prop: Sync {
     }
     /// extra per-worker warm-up (e.g. metric-log statics)
     fn extra_warm_up(&self) {}
+    /// "seq" or "sched" (recorded in replay files; selects the binary that replays them)
+    fn engine(&self) -> &'static str {
+        "seq"
+    }
     /// engine SCHED: statics are re-initialised per execution by the scheduler runtime, so the
     /// worker performs no warm-up (and must not touch the code under test outside an execution)
     fn needs_warm_up(&self) -> bool {
@@ -727,7 +731,7 @@ pub fn batch_main(prop: &'static dyn Prop, opts: BatchOpts) -> i32 {
                 "failing_signatures": fail_summary,
                 "known_findings_hit": known_lines,
                 "components": prop.components(),
-                "engine": "SEQ: one pristine OS thread per run in worker processes; violations confirmed and minimised in newly started processes",
+                "engine": if prop.engine() == "seq" { "SEQ: one pristine OS thread per run in worker processes; violations confirmed and minimised in newly started processes" } else { "SCHED: every execution of a thread program runs under our own seeded shuttle Scheduler on a new OS thread in worker processes; a failing execution is rewritten as default policy + explicit preemptions, confirmed and minimised in newly started processes" },
             },
             "assumptions": [
                 "virtual clock (hook H1) is the only clock the code under test reads; it never goes backwards",
@@ -813,7 +817,7 @@ fn write_replay(prop: &dyn Prop, seed: u64, idx: u64, sc: &Value, sig: &str, out
     let p = dir.join(name);
     let v = json!({
         "property": prop.id(),
-        "engine": "seq",
+        "engine": prop.engine(),
         "verif_seed": seed,
         "run_index": idx,
         "scenario": sc,
